@@ -45,12 +45,13 @@ type sigView struct {
 type filt struct{ sig, byteIdx, mask, length, off int }
 
 type obs struct {
-	brokenBy string // first edit after which the layout was no longer well-formed ("" = never)
-	msgBE    bool   // Message.ByteOrder() == big endian
-	view     []sigView
-	filters  []filt
-	decodes  [][][2]uint64 // per payload: (id, raw)
-	panicked string
+	orderBrokenBy string // first op after which a signal's byte order differed from the message's
+	brokenBy      string // first edit after which the layout was no longer well-formed ("" = never)
+	msgBE         bool   // Message.ByteOrder() == big endian
+	view          []sigView
+	filters       []filt
+	decodes       [][][2]uint64 // per payload: (id, raw)
+	panicked      string
 }
 
 type world struct {
@@ -64,7 +65,14 @@ type world struct {
 	// (sorted, pairwise disjoint, inside the payload), with "-shared-enum" appended when it is an
 	// enum edit and at least two placed signals refer to that enum
 	brokenBy string
+	// first operation after which some signal of the layout did not carry the byte order of the
+	// message (checked after every operation, not only at the end)
+	orderBrokenBy string
+	trace         *bufio.Writer // per-op trace for the state-machine model (nil = off)
 }
+
+// traceOut: when set, the next world created records a trace (primary run of a case only)
+var traceOut *bufio.Writer
 
 func kindOf(s acmelib.Signal) int {
 	switch s.Kind() {
@@ -84,6 +92,7 @@ func observe(w *world, payloads [][]byte) (o obs) {
 	}()
 	sl := w.msg.SignalLayout()
 	o.brokenBy = w.brokenBy
+	o.orderBrokenBy = w.orderBrokenBy
 	o.msgBE = w.msg.ByteOrder() == acmelib.MessageByteOrderBigEndian
 	for _, s := range w.msg.Signals() { // layout order
 		o.view = append(o.view, sigView{w.ids[s.EntityID()], s.GetRelativeStartPos(), s.GetSize(),
@@ -207,6 +216,9 @@ func checkProps(o obs, payloads [][]byte, nbits int) []failure {
 	}
 	// the byte order of the message is the byte order of every signal in its layout (the spec
 	// below reads the payload in the message's byte order)
+	if o.orderBrokenBy != "" {
+		return []failure{{"c02-byte-order-not-propagated", "a signal of the layout does not carry the byte order of the message after " + o.orderBrokenBy}}
+	}
 	for _, v := range o.view {
 		if v.be != o.msgBE {
 			return []failure{{"c02-byte-order-not-propagated", fmt.Sprintf("message big-endian=%v but signal %d (start %d size %d) reports big-endian=%v",
@@ -308,7 +320,7 @@ func checkProps(o obs, payloads [][]byte, nbits int) []failure {
 //	AP k           AppendSignal    IN k start  InsertSignal    RM k  RemoveSignal
 //	BO b           SetByteOrder    ST k size   SetType (new type)   SE k e  SetEnum
 //	SL k a / SR k a  shift         CP compact  SZ n  UpdateSizeByte
-func newWorld() *world { return &world{ids: map[acmelib.EntityID]int{}} }
+func newWorld() *world { return &world{ids: map[acmelib.EntityID]int{}, trace: traceOut} }
 
 func currentView(w *world) []sigView {
 	v := []sigView{}
@@ -353,10 +365,67 @@ func applyOp(w *world, op string) {
 			shared = "-shared-enum"
 		}
 	}
+	pre := "-"
+	if w.trace != nil && (f[0] == "AP" || f[0] == "IN") && len(f) > 1 {
+		if k, err := strconv.Atoi(f[1]); err == nil && k >= 0 && k < len(w.sigs) && w.sigs[k] != nil {
+			pre = "0"
+			if w.sigs[k].Endianness() == acmelib.MessageByteOrderBigEndian {
+				pre = "1"
+			}
+		}
+	}
 	doOp(w, f)
 	if w.msg != nil && w.brokenBy == "" && !wellFormed(currentView(w), 8*w.msg.SizeByte()) {
 		w.brokenBy = f[0] + shared
 	}
+	if w.msg != nil && w.orderBrokenBy == "" {
+		mbe := w.msg.ByteOrder() == acmelib.MessageByteOrderBigEndian
+		for _, v := range currentView(w) {
+			if v.be != mbe {
+				w.orderBrokenBy = fmt.Sprintf("%s (message big-endian=%v, signal %d big-endian=%v)", strings.Join(f, " "), mbe, v.id, v.be)
+				break
+			}
+		}
+	}
+	if w.trace != nil && w.msg != nil {
+		traceStep(w, f, pre)
+	}
+}
+
+// traceStep: one line per operation that can touch the message, with everything the state-machine
+// model (coq/C02/History.v) predicts: byte order of the message and of every signal, geometry,
+// layout order, Filters().
+//
+//	H bits                                  (after M)
+//	S op args ; pre ; B msgBE bits n (id start size be kind)* F m (sig byte mask len off)*
+func traceStep(w *world, f []string, pre string) {
+	switch f[0] {
+	case "NS", "NE", "NX", "EN":
+		return // creation of detached entities
+	case "M":
+		fmt.Fprintf(w.trace, "H %d\n", 8*w.msg.SizeByte())
+		return
+	}
+	var sb strings.Builder
+	fmt.Fprintf(&sb, "S %s ; %s ; B %d %d", strings.Join(f, " "), pre, b2i(w.msg.ByteOrder() == acmelib.MessageByteOrderBigEndian), 8*w.msg.SizeByte())
+	view := currentView(w)
+	fmt.Fprintf(&sb, " %d", len(view))
+	for _, v := range view {
+		fmt.Fprintf(&sb, " %d %d %d %d %d", v.id, v.start, v.size, b2i(v.be), v.kind)
+	}
+	fl := w.msg.SignalLayout().Filters()
+	fmt.Fprintf(&sb, " F %d", len(fl))
+	for _, x := range fl {
+		fmt.Fprintf(&sb, " %d %d %d %d %d", w.ids[x.Signal().EntityID()], x.ByteIndex(), int(x.Mask()), x.Length(), x.LeftOffset())
+	}
+	fmt.Fprintln(w.trace, sb.String())
+}
+
+func b2i(b bool) int {
+	if b {
+		return 1
+	}
+	return 0
 }
 
 func doOp(w *world, f []string) {
@@ -547,6 +616,20 @@ type recorder struct {
 	nontrivial map[string]struct{}
 	samples    []string
 	skippedWf  int
+	tw         *bufio.Writer // trace file
+	traced     int
+	traceMax   int
+}
+
+// primaryRun runs a case once with the per-op trace switched on (shrinking re-runs are untraced)
+func (rc *recorder) primaryRun(ops []string, pf func(int) [][]byte) (obs, [][]byte, int) {
+	if rc.traced < rc.traceMax {
+		traceOut = rc.tw
+		rc.traced++
+	}
+	o, p, nb := safeRun(ops, pf)
+	traceOut = nil
+	return o, p, nb
 }
 
 func (rc *recorder) record(cat string, o obs, payloads [][]byte, nbits int, ops []string, payloadsFor func(int) [][]byte) {
@@ -664,7 +747,7 @@ func genExhaustive(rc *recorder, r *rng, nrand int) {
 					}
 					return ps
 				}
-				o, p, nb := safeRun(ops, pf)
+				o, p, nb := rc.primaryRun(ops, pf)
 				rc.record("single-placement", o, p, nb, ops, pf)
 			}
 		}
@@ -851,7 +934,7 @@ func genHistories(rc *recorder, r *rng, n int) {
 			ps = append(ps, randBytes(rr, nb+1+rr.below(3))) // longer than the message
 			return ps
 		}
-		o, p, nb := safeRun(ops, pf)
+		o, p, nb := rc.primaryRun(ops, pf)
 		rc.record("history", o, p, nb, ops, pf)
 	}
 }
@@ -864,7 +947,12 @@ func main() {
 	if err != nil {
 		panic(err)
 	}
-	rc := &recorder{w: bufio.NewWriterSize(fh, 1<<20), hist: map[string]int{}, fails: map[string]failRec{}, nontrivial: map[string]struct{}{}}
+	th, err := os.Create(out + ".trace")
+	if err != nil {
+		panic(err)
+	}
+	rc := &recorder{w: bufio.NewWriterSize(fh, 1<<20), hist: map[string]int{}, fails: map[string]failRec{}, nontrivial: map[string]struct{}{},
+		tw: bufio.NewWriterSize(th, 1<<20), traceMax: map[bool]int{false: 1 << 30, true: 80000}[thorough]}
 	r := &rng{seed}
 	if rp := os.Getenv("VERIF_REPLAY_HISTORY"); rp != "" {
 		ops := strings.Split(rp, ",")
@@ -887,12 +975,14 @@ func main() {
 	}
 	rc.w.Flush()
 	fh.Close()
+	rc.tw.Flush()
+	th.Close()
 	sf, err := os.Create(out + ".summary")
 	if err != nil {
 		panic(err)
 	}
 	defer sf.Close()
-	fmt.Fprintf(sf, "cases %d\ndecodes %d\nnontrivial %d\nskipped_not_wf %d\n", rc.cases, rc.decodes, len(rc.nontrivial), rc.skippedWf)
+	fmt.Fprintf(sf, "cases %d\ndecodes %d\nnontrivial %d\nskipped_not_wf %d\ntraced_histories %d\n", rc.cases, rc.decodes, len(rc.nontrivial), rc.skippedWf, rc.traced)
 	for k, v := range rc.hist {
 		fmt.Fprintf(sf, "hist %s %d\n", k, v)
 	}
